@@ -69,7 +69,8 @@ ScriptOmitAssign == <<TxnSlot(1, {Omit("E")}, {Reg("A", Q("X", 3, 0)), Reg("A", 
                       TxnSlot(2, OAPosts, OAPosts, 1, 3)>>
 
 \* ---------------------------------------------------------------- assertions over a history
-AsQ == {NoQ, Q("X", 1, 0), Q("X", 3, 0), Q("X", 0, 0), Q("Y", -2, 0), Bare0}
+\* (1.0 X is the same number as 1 X; 1.4 X is not, however many decimals the balance has been written with)
+AsQ == {NoQ, Q("X", 1, 0), Q("X", 3, 0), Q("X", 0, 0), Q("Y", -2, 0), Bare0, Q("X", 10, 1), Q("X", 14, 1)}
 AsPosts == {RegX(a, q, NoEx, NoEx, s) : a \in {"A"}, q \in {Q("X", 1, 0), Q("X", -1, 0), Q("Y", -2, 0), Q("X", 2, 0)}, s \in AsQ}
            \cup {RegX("B", Q("X", -1, 0), NoEx, NoEx, s) : s \in {NoQ, Q("X", -1, 0), Q("X", -2, 0)}}
            \* a posting that moves nothing (`A  0 = ..`, `A  0 X = ..`) still has its assertion checked
@@ -79,7 +80,7 @@ As1Posts == {RegX("A", Q("X", 1, 0), NoEx, NoEx, s) : s \in {NoQ, Q("X", 1, 0), 
 ScriptAssert == <<TxnSlot(1, As1Posts, As1Posts, 1, 3), TxnSlot(2, AsPosts, AsPosts, 1, 2)>>
 \* (three postings: the zero-amount asserted postings are thinned to four shapes to keep the thorough tier within memory)
 AsPostsT == {p \in AsPosts : p.kind = "reg" /\ DecIsZero(p.q.v) =>
-                              <<p.q.c, p.asrt>> \in {<<"", Q("X", 1, 0)>>, <<"", Bare0>>, <<"X", Q("X", 3, 0)>>, <<"X", Q("Y", -2, 0)>>}}
+                              <<p.q.c, p.asrt>> \in {<<"", Q("X", 1, 0)>>, <<"", Bare0>>, <<"X", Q("X", 3, 0)>>, <<"X", Q("Y", -2, 0)>>, <<"", Q("X", 14, 1)>>}}
 ScriptAssertT == <<TxnSlot(1, As1Posts, As1Posts, 1, 3), TxnSlot(2, AsPostsT, AsPostsT, 1, 3)>>
 ScriptDeferred == <<TxnSlot(1, {Reg("A", Q("X", 1, 0))}, {Omit("E")}, 2, 2), TxnSlot(2, AsPosts, AsPosts, 2, 3)>>
 
